@@ -25,14 +25,14 @@ def StepGoal (cfg : Config) (K T : Nat) (x : World) (i : UtmiIn) : Prop :=
 theorem rank_step_startWrite (cfg : Config) (K T : Nat) (x : World) (i : UtmiIn) (h : Coh x) (hl : Live K x)
     (hw : x.u.win.st = .startWrite)
     (hs : liveCycle K T x.p.bus x.e i (x.u.step cfg i).2 = true) : StepGoal cfg K T x i := by
-  obtain ⟨⟨win, ctl, tx, rx, rdy, cnt⟩, ⟨pb, r4, rA, po, pw⟩, ⟨pd, wt, tl, mh, dn⟩⟩ := x
+  obtain ⟨⟨win, ctl, tx, rx, rdy, cnt⟩, ⟨pb, r4, rA, po, pw⟩, ⟨pd, wt, tl, mh, dn, a4, aA⟩⟩ := x
   obtain ⟨wst, ca, cw, d, oq, sp, wdn, rd⟩ := win
   obtain ⟨tst, treq⟩ := tx
   obtain ⟨c4, cA, cb⟩ := ctl
   obtain ⟨⟨dir, nxt, din⟩, txd, txv, ctrl⟩ := i
   simp only at hw
   subst hw
-  simp only [Coh, BusyCommon] at h
+  simp only [Coh, BusyCommon, Latched] at h
   obtain ⟨h1, h2, ⟨hb, ht, ha, hd, hr4, hrA⟩, hpb, hsp, hpd⟩ := h
   subst h1 hb hd hr4 hrA hpb hsp
   cases ht
@@ -42,7 +42,7 @@ theorem rank_step_startWrite (cfg : Config) (K T : Nat) (x : World) (i : UtmiIn)
   simp only [StepGoal, World.step, Utmi.step, Utmi.txBusIdle, Utmi.ctlOut, Utmi.ctlBusIdle]
   generalize functionControl ctrl = v4 at *
   generalize otgControl ctrl = vA at *
-  cases dir <;> cases nxt <;> cases rdy <;> simp_all [StepGoal, Live, RankStep, rank, pendAfter, pendNow, txRank, wcost, World.step, Utmi.step, Window.step, Ctl.step, Ctl.comb, Tx.step,
+  cases dir <;> cases nxt <;> cases rdy <;> simp_all [StepGoal, Live, Latched, RankStep, rank, pendAfter, pendNow, txRank, wcost, World.step, Utmi.step, Window.step, Ctl.step, Ctl.comb, Tx.step,
     PhyRegs.step, PhyRegs.commit, Env.step, Utmi.ctlOut, Utmi.ctlBusIdle, Utmi.txBusIdle, Tx.busy, Window.busy, presented, PhyBus.isTx, PhyBus.isIdle,
     COMMAND_REG_WRITE, ADDR_FUNCTION_CONTROL, ADDR_OTG_CONTROL, TRANSMIT_COMMAND]
   all_goals grind
@@ -50,14 +50,14 @@ theorem rank_step_startWrite (cfg : Config) (K T : Nat) (x : World) (i : UtmiIn)
 theorem rank_step_sendWriteAddress (cfg : Config) (K T : Nat) (x : World) (i : UtmiIn) (h : Coh x) (hl : Live K x)
     (hw : x.u.win.st = .sendWriteAddress)
     (hs : liveCycle K T x.p.bus x.e i (x.u.step cfg i).2 = true) : StepGoal cfg K T x i := by
-  obtain ⟨⟨win, ctl, tx, rx, rdy, cnt⟩, ⟨pb, r4, rA, po, pw⟩, ⟨pd, wt, tl, mh, dn⟩⟩ := x
+  obtain ⟨⟨win, ctl, tx, rx, rdy, cnt⟩, ⟨pb, r4, rA, po, pw⟩, ⟨pd, wt, tl, mh, dn, a4, aA⟩⟩ := x
   obtain ⟨wst, ca, cw, d, oq, sp, wdn, rd⟩ := win
   obtain ⟨tst, treq⟩ := tx
   obtain ⟨c4, cA, cb⟩ := ctl
   obtain ⟨⟨dir, nxt, din⟩, txd, txv, ctrl⟩ := i
   simp only at hw
   subst hw
-  simp only [Coh, BusyCommon] at h
+  simp only [Coh, BusyCommon, Latched] at h
   obtain ⟨h1, h2, ⟨hb, ht, ha, hd, hr4, hrA⟩, hpb, hsp, hdo, hpd⟩ := h
   subst h1 hb hd hr4 hrA hpb hsp hdo hpd
   cases ht
@@ -67,8 +67,8 @@ theorem rank_step_sendWriteAddress (cfg : Config) (K T : Nat) (x : World) (i : U
   simp only [StepGoal, World.step, Utmi.step, Utmi.txBusIdle, Utmi.ctlOut, Utmi.ctlBusIdle]
   generalize functionControl ctrl = v4 at *
   generalize otgControl ctrl = vA at *
-  rcases ha with ha | ha <;> subst ha <;>
-  cases dir <;> cases nxt <;> cases rdy <;> simp_all [StepGoal, Live, RankStep, rank, pendAfter, pendNow, txRank, wcost, World.step, Utmi.step, Window.step, Ctl.step, Ctl.comb, Tx.step,
+  rcases ha with ⟨ha, hv⟩ | ⟨ha, hv⟩ <;> subst ha hv <;>
+  cases dir <;> cases nxt <;> cases rdy <;> simp_all [StepGoal, Live, Latched, RankStep, rank, pendAfter, pendNow, txRank, wcost, World.step, Utmi.step, Window.step, Ctl.step, Ctl.comb, Tx.step,
     PhyRegs.step, PhyRegs.commit, Env.step, Utmi.ctlOut, Utmi.ctlBusIdle, Utmi.txBusIdle, Tx.busy, Window.busy, presented, PhyBus.isTx, PhyBus.isIdle,
     COMMAND_REG_WRITE, ADDR_FUNCTION_CONTROL, ADDR_OTG_CONTROL, TRANSMIT_COMMAND]
   all_goals grind
@@ -76,14 +76,14 @@ theorem rank_step_sendWriteAddress (cfg : Config) (K T : Nat) (x : World) (i : U
 theorem rank_step_holdWrite (cfg : Config) (K T : Nat) (x : World) (i : UtmiIn) (h : Coh x) (hl : Live K x)
     (hw : x.u.win.st = .holdWrite)
     (hs : liveCycle K T x.p.bus x.e i (x.u.step cfg i).2 = true) : StepGoal cfg K T x i := by
-  obtain ⟨⟨win, ctl, tx, rx, rdy, cnt⟩, ⟨pb, r4, rA, po, pw⟩, ⟨pd, wt, tl, mh, dn⟩⟩ := x
+  obtain ⟨⟨win, ctl, tx, rx, rdy, cnt⟩, ⟨pb, r4, rA, po, pw⟩, ⟨pd, wt, tl, mh, dn, a4, aA⟩⟩ := x
   obtain ⟨wst, ca, cw, d, oq, sp, wdn, rd⟩ := win
   obtain ⟨tst, treq⟩ := tx
   obtain ⟨c4, cA, cb⟩ := ctl
   obtain ⟨⟨dir, nxt, din⟩, txd, txv, ctrl⟩ := i
   simp only at hw
   subst hw
-  simp only [Coh, BusyCommon] at h
+  simp only [Coh, BusyCommon, Latched] at h
   obtain ⟨h1, h2, ⟨hb, ht, ha, hd, hr4, hrA⟩, hpb, hsp, hdo, hpd⟩ := h
   subst h1 hb hd hr4 hrA hpb hsp hdo hpd
   cases ht
@@ -93,7 +93,7 @@ theorem rank_step_holdWrite (cfg : Config) (K T : Nat) (x : World) (i : UtmiIn) 
   simp only [StepGoal, World.step, Utmi.step, Utmi.txBusIdle, Utmi.ctlOut, Utmi.ctlBusIdle]
   generalize functionControl ctrl = v4 at *
   generalize otgControl ctrl = vA at *
-  cases dir <;> cases nxt <;> cases rdy <;> simp_all [StepGoal, Live, RankStep, rank, pendAfter, pendNow, txRank, wcost, World.step, Utmi.step, Window.step, Ctl.step, Ctl.comb, Tx.step,
+  cases dir <;> cases nxt <;> cases rdy <;> simp_all [StepGoal, Live, Latched, RankStep, rank, pendAfter, pendNow, txRank, wcost, World.step, Utmi.step, Window.step, Ctl.step, Ctl.comb, Tx.step,
     PhyRegs.step, PhyRegs.commit, Env.step, Utmi.ctlOut, Utmi.ctlBusIdle, Utmi.txBusIdle, Tx.busy, Window.busy, presented, PhyBus.isTx, PhyBus.isIdle,
     COMMAND_REG_WRITE, ADDR_FUNCTION_CONTROL, ADDR_OTG_CONTROL, TRANSMIT_COMMAND]
   all_goals grind
@@ -101,14 +101,14 @@ theorem rank_step_holdWrite (cfg : Config) (K T : Nat) (x : World) (i : UtmiIn) 
 theorem rank_step_stopping (cfg : Config) (K T : Nat) (x : World) (i : UtmiIn) (h : Coh x) (hl : Live K x)
     (hw : x.u.win.st = .stopping)
     (hs : liveCycle K T x.p.bus x.e i (x.u.step cfg i).2 = true) : StepGoal cfg K T x i := by
-  obtain ⟨⟨win, ctl, tx, rx, rdy, cnt⟩, ⟨pb, r4, rA, po, pw⟩, ⟨pd, wt, tl, mh, dn⟩⟩ := x
+  obtain ⟨⟨win, ctl, tx, rx, rdy, cnt⟩, ⟨pb, r4, rA, po, pw⟩, ⟨pd, wt, tl, mh, dn, a4, aA⟩⟩ := x
   obtain ⟨wst, ca, cw, d, oq, sp, wdn, rd⟩ := win
   obtain ⟨tst, treq⟩ := tx
   obtain ⟨c4, cA, cb⟩ := ctl
   obtain ⟨⟨dir, nxt, din⟩, txd, txv, ctrl⟩ := i
   simp only at hw
   subst hw
-  simp only [Coh, BusyCommon] at h
+  simp only [Coh, BusyCommon, Latched] at h
   obtain ⟨h1, h2, ⟨hb, ht, ha, hd, hr4, hrA⟩, hpb, hsp, hdo⟩ := h
   subst h1 hb hd hr4 hrA hpb hsp hdo
   cases ht
@@ -118,8 +118,8 @@ theorem rank_step_stopping (cfg : Config) (K T : Nat) (x : World) (i : UtmiIn) (
   simp only [StepGoal, World.step, Utmi.step, Utmi.txBusIdle, Utmi.ctlOut, Utmi.ctlBusIdle]
   generalize functionControl ctrl = v4 at *
   generalize otgControl ctrl = vA at *
-  rcases ha with ha | ha <;> subst ha <;>
-  cases dir <;> cases nxt <;> cases rdy <;> simp_all [StepGoal, Live, RankStep, rank, pendAfter, pendNow, txRank, wcost, World.step, Utmi.step, Window.step, Ctl.step, Ctl.comb, Tx.step,
+  rcases ha with ⟨ha, hv⟩ | ⟨ha, hv⟩ <;> subst ha hv <;>
+  cases dir <;> cases nxt <;> cases rdy <;> simp_all [StepGoal, Live, Latched, RankStep, rank, pendAfter, pendNow, txRank, wcost, World.step, Utmi.step, Window.step, Ctl.step, Ctl.comb, Tx.step,
     PhyRegs.step, PhyRegs.commit, Env.step, Utmi.ctlOut, Utmi.ctlBusIdle, Utmi.txBusIdle, Tx.busy, Window.busy, presented, PhyBus.isTx, PhyBus.isIdle,
     COMMAND_REG_WRITE, ADDR_FUNCTION_CONTROL, ADDR_OTG_CONTROL, TRANSMIT_COMMAND]
   all_goals grind
@@ -127,14 +127,14 @@ theorem rank_step_stopping (cfg : Config) (K T : Nat) (x : World) (i : UtmiIn) (
 theorem rank_step_idle_done (cfg : Config) (K T : Nat) (x : World) (i : UtmiIn) (h : Coh x) (hl : Live K x)
     (hw : x.u.win.st = .idle) (hdn : x.u.win.done = true)
     (hs : liveCycle K T x.p.bus x.e i (x.u.step cfg i).2 = true) : StepGoal cfg K T x i := by
-  obtain ⟨⟨win, ctl, tx, rx, rdy, cnt⟩, ⟨pb, r4, rA, po, pw⟩, ⟨pd, wt, tl, mh, dn⟩⟩ := x
+  obtain ⟨⟨win, ctl, tx, rx, rdy, cnt⟩, ⟨pb, r4, rA, po, pw⟩, ⟨pd, wt, tl, mh, dn, a4, aA⟩⟩ := x
   obtain ⟨wst, ca, cw, d, oq, sp, wdn, rd⟩ := win
   obtain ⟨tst, treq⟩ := tx
   obtain ⟨c4, cA, cb⟩ := ctl
   obtain ⟨⟨dir, nxt, din⟩, txd, txv, ctrl⟩ := i
   simp only at hw hdn
   subst hw hdn
-  simp only [Coh, BusyCommon] at h
+  simp only [Coh, BusyCommon, Latched] at h
   obtain ⟨h1, h2, hdo, hsp, h3⟩ := h
   subst h1 hdo hsp
   obtain ⟨l2, l3, l4⟩ := hl
@@ -146,9 +146,9 @@ theorem rank_step_idle_done (cfg : Config) (K T : Nat) (x : World) (i : UtmiIn) 
   rcases h3 with ⟨hd, hb, ht, hpb, ha, hr4, hrA⟩ | ⟨hd, hb, hr4, hrA, h4⟩
   · subst hb hpb hr4 hrA
     cases ht
-    rcases ha with ha | ha <;> subst ha <;>
+    rcases ha with ⟨ha, hv⟩ | ⟨ha, hv⟩ <;> subst ha hv <;>
     by_cases g4 : c4 = v4 <;> by_cases gA : cA = vA <;>
-    cases dir <;> cases nxt <;> cases rdy <;> simp_all [StepGoal, Live, RankStep, rank, pendAfter, pendNow, txRank,  World.step, Utmi.step, Window.step, Ctl.step, Ctl.comb, Tx.step,
+    cases dir <;> cases nxt <;> cases rdy <;> simp_all [StepGoal, Live, Latched, RankStep, rank, pendAfter, pendNow, txRank,  World.step, Utmi.step, Window.step, Ctl.step, Ctl.comb, Tx.step,
     PhyRegs.step, PhyRegs.commit, Env.step, Utmi.ctlOut, Utmi.ctlBusIdle, Utmi.txBusIdle, Tx.busy, Window.busy, presented, PhyBus.isTx, PhyBus.isIdle,
     COMMAND_REG_WRITE, ADDR_FUNCTION_CONTROL, ADDR_OTG_CONTROL, TRANSMIT_COMMAND]
     all_goals grind
@@ -157,13 +157,13 @@ theorem rank_step_idle_done (cfg : Config) (K T : Nat) (x : World) (i : UtmiIn) 
 theorem rank_step_idle_free (cfg : Config) (K T : Nat) (x : World) (i : UtmiIn) (h : Coh x) (hl : Live K x)
     (hw : x.u.win.st = .idle) (hdn : x.u.win.done = false) (htx : x.u.tx = ⟨.idle, false⟩)
     (hs : liveCycle K T x.p.bus x.e i (x.u.step cfg i).2 = true) : StepGoal cfg K T x i := by
-  obtain ⟨⟨win, ctl, tx, rx, rdy, cnt⟩, ⟨pb, r4, rA, po, pw⟩, ⟨pd, wt, tl, mh, dn⟩⟩ := x
+  obtain ⟨⟨win, ctl, tx, rx, rdy, cnt⟩, ⟨pb, r4, rA, po, pw⟩, ⟨pd, wt, tl, mh, dn, a4, aA⟩⟩ := x
   obtain ⟨wst, ca, cw, d, oq, sp, wdn, rd⟩ := win
   obtain ⟨c4, cA, cb⟩ := ctl
   obtain ⟨⟨dir, nxt, din⟩, txd, txv, ctrl⟩ := i
   simp only at hw hdn htx
   subst hw hdn htx
-  simp only [Coh, BusyCommon] at h
+  simp only [Coh, BusyCommon, Latched] at h
   obtain ⟨h1, h2, hdo, hsp, h3⟩ := h
   subst h1 hdo hsp
   obtain ⟨l2, l3, l4⟩ := hl
@@ -182,7 +182,7 @@ theorem rank_step_idle_free (cfg : Config) (K T : Nat) (x : World) (i : UtmiIn) 
     by_cases g4 : r4 = v4 <;> by_cases gA : rA = vA <;>
       cases dir <;> cases nxt <;> cases txv <;> cases rdy <;>
       by_cases gn : ctrl.opMode % 4 = OP_MODE_NO_BIT_STUFFING <;>
-      simp_all [StepGoal, Live, RankStep, rank, pendAfter, pendNow, txRank, wcost, World.step, Utmi.step, Window.step, Ctl.step, Ctl.comb, Tx.step,
+      simp_all [StepGoal, Live, Latched, RankStep, rank, pendAfter, pendNow, txRank, wcost, World.step, Utmi.step, Window.step, Ctl.step, Ctl.comb, Tx.step,
     PhyRegs.step, PhyRegs.commit, Env.step, Utmi.ctlOut, Utmi.ctlBusIdle, Utmi.txBusIdle, Tx.busy, Window.busy, presented, PhyBus.isTx, PhyBus.isIdle,
     COMMAND_REG_WRITE, ADDR_FUNCTION_CONTROL, ADDR_OTG_CONTROL, TRANSMIT_COMMAND]
     all_goals grind
@@ -190,13 +190,13 @@ theorem rank_step_idle_free (cfg : Config) (K T : Nat) (x : World) (i : UtmiIn) 
 theorem rank_step_idle_claimed (cfg : Config) (K T : Nat) (x : World) (i : UtmiIn) (h : Coh x) (hl : Live K x)
     (hw : x.u.win.st = .idle) (hdn : x.u.win.done = false) (htx : x.u.tx = ⟨.idle, true⟩)
     (hs : liveCycle K T x.p.bus x.e i (x.u.step cfg i).2 = true) : StepGoal cfg K T x i := by
-  obtain ⟨⟨win, ctl, tx, rx, rdy, cnt⟩, ⟨pb, r4, rA, po, pw⟩, ⟨pd, wt, tl, mh, dn⟩⟩ := x
+  obtain ⟨⟨win, ctl, tx, rx, rdy, cnt⟩, ⟨pb, r4, rA, po, pw⟩, ⟨pd, wt, tl, mh, dn, a4, aA⟩⟩ := x
   obtain ⟨wst, ca, cw, d, oq, sp, wdn, rd⟩ := win
   obtain ⟨c4, cA, cb⟩ := ctl
   obtain ⟨⟨dir, nxt, din⟩, txd, txv, ctrl⟩ := i
   simp only at hw hdn htx
   subst hw hdn htx
-  simp only [Coh, BusyCommon] at h
+  simp only [Coh, BusyCommon, Latched] at h
   obtain ⟨h1, h2, hdo, hsp, h3⟩ := h
   subst h1 hdo hsp
   obtain ⟨l2, l3, l4⟩ := hl
@@ -215,7 +215,7 @@ theorem rank_step_idle_claimed (cfg : Config) (K T : Nat) (x : World) (i : UtmiI
     by_cases g4 : r4 = v4 <;> by_cases gA : rA = vA <;>
       cases dir <;> cases nxt <;> cases txv <;> cases rdy <;>
       by_cases gn : ctrl.opMode % 4 = OP_MODE_NO_BIT_STUFFING <;>
-      simp_all [StepGoal, Live, RankStep, rank, pendAfter, pendNow, txRank, wcost, World.step, Utmi.step, Window.step, Ctl.step, Ctl.comb, Tx.step,
+      simp_all [StepGoal, Live, Latched, RankStep, rank, pendAfter, pendNow, txRank, wcost, World.step, Utmi.step, Window.step, Ctl.step, Ctl.comb, Tx.step,
     PhyRegs.step, PhyRegs.commit, Env.step, Utmi.ctlOut, Utmi.ctlBusIdle, Utmi.txBusIdle, Tx.busy, Window.busy, presented, PhyBus.isTx, PhyBus.isIdle,
     COMMAND_REG_WRITE, ADDR_FUNCTION_CONTROL, ADDR_OTG_CONTROL, TRANSMIT_COMMAND]
     all_goals grind
@@ -223,13 +223,13 @@ theorem rank_step_idle_claimed (cfg : Config) (K T : Nat) (x : World) (i : UtmiI
 theorem rank_step_idle_transmit (cfg : Config) (K T : Nat) (x : World) (i : UtmiIn) (h : Coh x) (hl : Live K x)
     (hw : x.u.win.st = .idle) (hdn : x.u.win.done = false) (htx : x.u.tx = ⟨.transmit, true⟩)
     (hs : liveCycle K T x.p.bus x.e i (x.u.step cfg i).2 = true) : StepGoal cfg K T x i := by
-  obtain ⟨⟨win, ctl, tx, rx, rdy, cnt⟩, ⟨pb, r4, rA, po, pw⟩, ⟨pd, wt, tl, mh, dn⟩⟩ := x
+  obtain ⟨⟨win, ctl, tx, rx, rdy, cnt⟩, ⟨pb, r4, rA, po, pw⟩, ⟨pd, wt, tl, mh, dn, a4, aA⟩⟩ := x
   obtain ⟨wst, ca, cw, d, oq, sp, wdn, rd⟩ := win
   obtain ⟨c4, cA, cb⟩ := ctl
   obtain ⟨⟨dir, nxt, din⟩, txd, txv, ctrl⟩ := i
   simp only at hw hdn htx
   subst hw hdn htx
-  simp only [Coh, BusyCommon] at h
+  simp only [Coh, BusyCommon, Latched] at h
   obtain ⟨h1, h2, hdo, hsp, h3⟩ := h
   subst h1 hdo hsp
   obtain ⟨l2, l3, l4⟩ := hl
@@ -248,7 +248,7 @@ theorem rank_step_idle_transmit (cfg : Config) (K T : Nat) (x : World) (i : Utmi
     by_cases g4 : r4 = v4 <;> by_cases gA : rA = vA <;>
       cases dir <;> cases nxt <;> cases txv <;> cases rdy <;>
       by_cases gn : ctrl.opMode % 4 = OP_MODE_NO_BIT_STUFFING <;>
-      simp_all [StepGoal, Live, RankStep, rank, pendAfter, pendNow, txRank, wcost, World.step, Utmi.step, Window.step, Ctl.step, Ctl.comb, Tx.step,
+      simp_all [StepGoal, Live, Latched, RankStep, rank, pendAfter, pendNow, txRank, wcost, World.step, Utmi.step, Window.step, Ctl.step, Ctl.comb, Tx.step,
     PhyRegs.step, PhyRegs.commit, Env.step, Utmi.ctlOut, Utmi.ctlBusIdle, Utmi.txBusIdle, Tx.busy, Window.busy, presented, PhyBus.isTx, PhyBus.isIdle,
     COMMAND_REG_WRITE, ADDR_FUNCTION_CONTROL, ADDR_OTG_CONTROL, TRANSMIT_COMMAND]
     all_goals grind
